@@ -343,15 +343,26 @@ Proof.
   - apply Rest.
 Qed.
 
+Lemma drop_length_le : forall n (s : str), (length (drop n s) <= length s)%nat.
+Proof. induction n as [|n IH]; intros s; [cbn; lia|]. destruct s as [|c s]; [cbn; lia|]. cbn [drop length]. specialize (IH s). lia. Qed.
+
 Lemma root_shape cf st p cur :
-  (exists x, root cf st p cur = inl (Ok x)) \/ root cf st p cur = inr EValue \/ root cf st p cur = inr EUnsupported.
+  (exists x, root cf st p cur = inl (Ok x)) \/ root cf st p cur = inr EValue.
 Proof.
-  unfold root. destruct (c_windrive cf && maybe_drive p); [auto|].
-  destruct (c_noabs cf && _); [auto|].
+  unfold root.
+  destruct (if c_windrive cf then _ else _) as [[[rs dt] dsl] dend].
+  destruct (c_noabs cf && rs); [auto|].
+  match goal with |- context [match dt with Some t => @?A t | None => ?B end] =>
+    destruct (match dt with Some t => A t | None => B end) as [cur2 it0] eqn:E2 end.
+  assert (Hs : (size it0 <= length p)%nat).
+  { destruct dt as [t|]; inversion E2; subst.
+    - pose proof (consume_path_sep_size cf {| idx := Z.of_N dend; rest := drop (N.to_nat dend) p |}) as C.
+      pose proof (drop_length_le (N.to_nat dend) p) as D. unfold size in *. cbn [rest] in *. lia.
+    - unfold size. cbn. lia. }
   match goal with |- context [root_loop (fuel_for p) cf ?s ?i ?c] =>
-    pose proof (root_loop_never_fuel (fuel_for p) cf s i c ltac:(unfold size, fuel_for; cbn; lia)) as R;
-    destruct (root_loop (fuel_for p) cf s i c) as [[st2 cur2]| |] end; [|contradiction|contradiction].
-  destruct (clean_up_inverse cf st2 cur2 false). left. eexists. reflexivity.
+    pose proof (root_loop_never_fuel (fuel_for p) cf s i c ltac:(unfold fuel_for; lia)) as R;
+    destruct (root_loop (fuel_for p) cf s i c) as [[st2 cur2']| |] end; [|contradiction|contradiction].
+  destruct (clean_up_inverse cf st2 cur2' false). left. eexists. reflexivity.
 Qed.
 
 Theorem wcparse_cf_never_out_of_fuel cf st p : wcparse_cf cf st p <> inr EFuel.
@@ -362,13 +373,13 @@ Proof.
   assert (Hpre : pre <> inr EFuel).
   { unfold pre. destruct (matchbase st1 || extmatchbase st1); [|discriminate].
     destruct (c_globstarlong cf && c_follow cf).
-    - destruct (root_shape cf st1 (S_ "***") [T []]) as [[x E]|[E|E]]; rewrite E; discriminate.
-    - destruct (root_shape cf (set_globstar st1 true) (S_ "**") [T []]) as [[[s c] E]|[E|E]]; rewrite E; discriminate. }
+    - destruct (root_shape cf st1 (S_ "***") [T []]) as [[x E]|E]; rewrite E; discriminate.
+    - destruct (root_shape cf (set_globstar st1 true) (S_ "**") [T []]) as [[[s c] E]|E]; rewrite E; discriminate. }
   destruct pre as [[st2 prepend]|e]; [|intros H; apply Hpre; inversion H; reflexivity].
   set (p2 := if str_eqb p1 [cBS] then [] else p1).
   destruct p2 as [|c0 p2'] eqn:Ep2.
   - discriminate.
-  - destruct (root_shape cf st2 (c0 :: p2') [T []]) as [[[s c] E]|[E|E]]; rewrite E; discriminate.
+  - destruct (root_shape cf st2 (c0 :: p2') [T []]) as [[[s c] E]|E]; rewrite E; discriminate.
 Qed.
 
 Theorem wcparse_never_out_of_fuel P flags b p : wcparse P flags b p <> inr EFuel.
@@ -377,13 +388,7 @@ Proof. unfold wcparse. destruct (mk_cfg P flags b) as [cf st]. apply wcparse_cf_
 (* under Unix rules the only error the parser can answer is the ValueError for an absolute pattern *)
 Lemma root_shape_unix cf st p cur : c_windrive cf = false ->
   (exists x, root cf st p cur = inl (Ok x)) \/ root cf st p cur = inr EValue.
-Proof.
-  intros W. destruct (root_shape cf st p cur) as [H|[H|H]]; auto.
-  exfalso. unfold root in H. rewrite W in H. cbn [andb] in H.
-  destruct (c_noabs cf && _); [discriminate|].
-  destruct (root_loop _ _ _ _ _) as [[st2 cur2]| |]; try discriminate.
-  destruct (clean_up_inverse cf st2 cur2 false). discriminate.
-Qed.
+Proof. intros _. apply root_shape. Qed.
 
 Theorem wcparse_errors_unix flags b p e :
   is_unix_style linux flags = true -> wcparse linux flags b p = inr e -> e = EValue.
